@@ -120,6 +120,7 @@ class Faults:
         self.fired = []
         self._orig = {}
         self._fdpath = {}
+        self.enabled = True
 
     # -- bookkeeping
     def _rel(self, path):
@@ -137,12 +138,13 @@ class Faults:
 
     def _point(self, kind, path):
         rel = self._rel(path)
-        if rel is None:
+        if rel is None or not self.enabled:
             return
         idx = len(self.calls)
         self.calls.append((kind, rel))
         hit = False
-        if self.fail_at is not None and idx == self.fail_at:
+        fa = self.fail_at
+        if fa is not None and (idx == fa if isinstance(fa, int) else idx in fa):
             hit = True
         if self.persistent is not None and (rel == self.persistent):
             hit = True
